@@ -97,6 +97,9 @@ class SimApp(BaseApplication):
         t = current_task()
         if w.on_app_load is not None:
             w.on_app_load(t.proc)
+        if w.app_load_delay and w.sim.now > 0.05:
+            # importing the application takes time: workers of later generations are not ready at once
+            seams.TIME.sleep(w.app_load_delay)
         return w.wsgi_app
 
 
@@ -271,6 +274,7 @@ class World:
         self.served = []             # (time, worker pid, age, marker)
         self.forks = []              # (time, parent pid, child pid, kind)
         self.addr = ("127.0.0.1", 8000)
+        self.app_load_delay = 0.0    # simulated seconds the application import takes in workers started after t=0
         self.env_identity = None     # {"user":..., "group":...} given through GUNICORN_CMD_ARGS instead of the config source
         self.intended = {}           # master pid -> (user, group) the world intends for workers forked by that master
         self.cproc = None
